@@ -1060,7 +1060,8 @@ def check_remove_pair(rep, fl, rule="R06.3"):
     if ok:
         a = [norm(x) for x in b.call_args(sr[0][1])]
         pay = ss[0][3]
-        ok = a[1] == index and a[2] == conflict and is_call(pay, "Item::delete") and pay[2][0] == index and pay[2][1] == conflict
+        cf = ctor_fields(facts, pay)
+        ok = a[1] == index and a[2] == conflict and cf is not None and cf[0].endswith("Item::Delete") and cf[1].get("key") == index and cf[1].get("conflict") == conflict
         ok = ok and block_dominates(b, sr[0][0], ss[0][0])
         # every not-closed, error-free path sends the Delete
         errs = [x for x, tt in b.calls() if callee_matches(b.callee_of(tt), "FromResidual::from_residual")]
